@@ -1,2 +1,2 @@
 """imports every contract module (registration order = report order)"""
-from . import common, c11, fields, c06, kernels, cigar, refs, c04_line, frames, setfield, creators, updrefs, pathlists, entry, headers, tags, connect, sameid, pathlinks, tables, clone, writer, multiply, segsyntax, topology, lineeq, groups, registry  # noqa
+from . import common, c11, fields, c06, kernels, cigar, refs, c04_line, frames, setfield, creators, updrefs, pathlists, entry, headers, tags, connect, sameid, pathlinks, tables, clone, writer, multiply, segsyntax, topology, lineeq, groups, registry, small  # noqa
